@@ -1,10 +1,13 @@
 """C01 — Event dispatch is complete, priority-ordered and serial.
 
-Correspondence: the real EventManager of a booted machine (rig.machine.events) and the Gallina model
-coq/C01/Model.v interpret the same handler scripts; the observation lists (handler invocations with
-merged kwargs, completion callbacks, queue lengths after each turn, final handler order) must be equal.
-Oracle: an acceptor for the property's own language (written from the property text, not from the
-queue-stack algorithm) walks the implementation's trace.
+Correspondence: the real EventManager / DelayManager / SwitchController of a booted machine and the Gallina model
+coq/C01/Model.v interpret the same handler scripts; the observation lists (contexts, handler invocations with merged
+kwargs, callbacks run inline by run_now / process_switch, completion callbacks, queue lengths whenever a context
+starts, final handler order, pending delays) must be equal.  Two suites: "dispatch" (plain / boolean / relay events,
+calls into DelayManager and SwitchController from inside handlers, loop callbacks that are due at the same instant,
+_min_priority) and "queue" (one post_queue per case, handlers that wait and are cleared later).
+Oracle: an acceptor for the property's own language (written from the property text, not from the queue-stack
+algorithm) walks the implementation's trace.
 """
 import json
 
@@ -15,41 +18,63 @@ READY = True
 RULE = ("handler scripts generated from one PRNG: 2-6 events, 3-14 registrations with priorities from a small set "
         "(many ties, '.N' suffixes, relative_priority; in half of the cases the same procedure registered 2-4 times "
         "for one event with equal/adjacent priorities), conditions, colliding kwargs, programs that post (plain / "
-        "boolean / relay, with and without completion callbacks), add, replace and remove handlers (by key and by "
-        "method) during dispatch; 1-3 "
-        "turns per case from four posting contexts (direct, delay callback, switch handler, timed switch handler). "
-        "non-trivial = at least one event posted from inside a handler or callback and at least one dispatch with "
-        ">= 2 handlers; distinct by case hash")
+        "boolean / relay, with and without completion callbacks), add, replace and remove handlers (by key, by method, "
+        "by event + method, all handlers of an event) during dispatch. Flavours: 'calls' = programs also call "
+        "DelayManager.add / reset / remove / run_now (named delays whose callbacks post and add further delays) and "
+        "SwitchController.process_switch (untimed handlers that post) from inside handlers, callbacks and contexts; "
+        "'same' = 2-3 loop callbacks armed for the same instant (two delays, delay + timed switch handler, timed handlers "
+        "of two switches), each posting; 'minprio' = handlers with blocking facilities, posts that carry _min_priority and "
+        "handlers that return {'_min_priority': ...}; 'mix'; 'bus' = round-1 alphabet. 1-3 scripted contexts per case "
+        "from six kinds (direct, delay, switch handler, timed switch handler x2, second delay) plus every delay the "
+        "programs leave pending. queue suite: the same scripts plus exactly one post_queue for an event of its own with "
+        "2-5 handlers (kwargs colliding with the posted ones, conditions), handlers that wait, 1-4 later contexts that "
+        "clear the wait. non-trivial = at least one event posted from inside a handler or callback and at least one "
+        "dispatch with >= 2 handlers (queue suite: >= 2 handlers of the queue event called and a completion callback); "
+        "distinct by case hash")
 TRUSTED_BASE = [
     "Coq 8.16.1 kernel (coqc), vm_compute for evaluating the model in the correspondence run and for the _refuted witness; no native_compute",
     "axioms: none (every Print Assumptions is 'Closed under the global context')",
     "hand-written model coq/C01/Model.v tied to /repo by correspondence: harness/props/c01.py runs the real "
-    "EventManager (booted machine on the virtual clock) and the model on the same scripts",
-    "CPython: list.sort stability, dict semantics, asyncio call_soon / call_at; MPF DelayManager, SwitchController and "
-    "BoolTemplate are used as posting contexts / condition evaluator and are not modelled beyond 'runs the user callback, "
-    "then the queue is drained' and 'k == z on the merged kwargs'",
+    "EventManager, DelayManager and SwitchController (booted machine on the virtual clock) and the model on the same scripts",
+    "CPython: list.sort stability, dict semantics, asyncio (call_soon FIFO, call_at, tasks); the order in which asyncio runs "
+    "callbacks that are due at the same instant is taken from the observation (input of the model), the oracle only "
+    "requires that every scripted context ran; MPF BoolTemplate evaluates the conditions; SwitchController / DelayManager "
+    "are modelled only as far as the bus is concerned (table of pending delays, 'run the callback inline', 'run the "
+    "callback, then drain'); timing (which delay expires when) is not modelled",
 ]
 ASSUMPTIONS = [
-    "handlers do not raise; queue-type events (post_queue, asynchronous) belong to C02 and are not generated",
-    "_min_priority / blocking_facility skipping and the BCP monitor branch are not exercised",
-    "handlers run only the scripted actions (post, add_handler, replace_handler, remove_handler_by_key, "
-    "remove_handler(method), return a value); handler identity for remove/replace is equality of a callable per procedure",
+    "handlers do not raise (MPF treats a handler exception as fatal: EventHandlerException reaches the loop's exception "
+    "handler and the machine stops); an exception in a run is reported by the oracle (sig 'exception')",
+    "queue events: one post_queue per case (at most one task exists), clear() is called from another context as the last "
+    "action of a context program or from a handler; several tasks runnable at once (asyncio interleaves their steps "
+    "FIFO) belong to C02; post_queue always has a callback",
+    "posted _min_priority dicts always contain 'all' (the code indexes it); the BCP monitor branch is not exercised",
+    "two timed handlers of the SAME switch with the same ms (or several untimed handlers of one switch) share one "
+    "drain by design and are not generated as separate contexts",
+    "handlers run only the scripted actions; handler identity for remove/replace is equality of a callable per procedure",
 ]
 DESIGN_REF = "DESIGN.md section 3, C01"
-TECHNIQUE = "Coq proof over an executable Gallina model + differential correspondence + direct trace oracle"
+TECHNIQUE = "Coq proof over an executable Gallina model + differential correspondence (2 suites) + direct trace oracle"
 LEVEL_TEXT = ("Machine-checked proof (Coq) that the literal transcription of process_event_queue (stack of deques) refines a "
               "short depth-first specification for every handler script: no queued event is lost (stack invariant), the "
-              "handlers of one dispatch are the registered snapshot in descending priority with ties in registration "
-              "order, each exactly once with handler kwargs overriding posted ones, posts made during an event are "
-              "dispatched before any waiting event, every queued event is dispatched exactly once and every completion "
-              "callback runs exactly once and only when nothing is pending. The model is tied to the working tree by "
-              "running both on the same generated scripts on every run.")
+              "handlers of one dispatch are a subsequence of the registered snapshot for every event type and exactly the "
+              "snapshot minus _min_priority-blocked handlers, filtered by condition, in descending priority with ties in "
+              "registration order, each once, handler kwargs overriding posted ones, for plain events; posts made during an "
+              "event are dispatched before any waiting event; every queued event is dispatched exactly once and every "
+              "completion callback runs exactly once and only when nothing is pending; a program that calls "
+              "DelayManager.run_now / add / remove or SwitchController.process_switch never dispatches anything "
+              "(inline_calls_never_dispatch); every context, including an expiring delay, leaves both queues empty "
+              "(every_context_is_drained); queue events: handlers once, in order, across waits, callback once after all "
+              "waits. The model is tied to the working tree by running both on the same generated scripts on every run.")
 LEVEL_NOTE = ("Trusted: Coq kernel + vm_compute; no axioms. Model hand-written; correspondence validates it against the "
-              "working tree on a booted machine. One recorded low-severity finding: _post's fast path drops an event "
+              "working tree on a booted machine. Theorems about complete runs carry the guard oof = false (checked per "
+              "case; no closed-form fuel bound). One recorded low-severity finding: _post's fast path drops an event "
               "that has no handler yet at post time even if one is registered before its dispatch would begin.")
 
 KEYS = 4          # user kwargs keys k1..k4
-CTX_NAMES = ["direct", "delay", "switch", "timed_switch"]
+MPKEY = -1        # the kwarg '_min_priority'; its value is ["m", [[0, all], [facility, n], ...]]
+CTX_NAMES = ["direct", "delay", "switch", "timed_switch", "timed_switch2", "delay2"]
+NSW = 2           # switches whose untimed handlers are called inline (process_switch from inside a program)
 _G = {}
 
 
@@ -70,8 +95,19 @@ def rkw(rng, nmax):
     return [[k, rval(rng)] for k in ks]
 
 
-def rret(rng):
+def rmp(rng):
+    """a _min_priority dict: 'all' always present (the code indexes it), facilities 1..2 sometimes"""
+    m = [[0, rng.choice([0, 0, 1, 2, 2, 3])]]
+    for f in (1, 2):
+        if rng.random() < 0.45:
+            m.append([f, rng.choice([1, 2, 3, 5])])
+    return m
+
+
+def rret(rng, mp=False):
     r = rng.random()
+    if mp and r < 0.12:
+        return ["mp", rmp(rng)]
     if r < 0.62:
         return ["none"]
     if r < 0.74:
@@ -84,37 +120,51 @@ def rret(rng):
     return ["m", [[k, rng.choice([0, 1, 2, 5])] for k in ks]]
 
 
-def gen_case(rng, tier, i):
+def gen_case(rng, tier, i, queue=False):
+    """flavours (dispatch suite): 'bus' = the round-1 alphabet; 'calls' = handlers call into DelayManager /
+    SwitchController; 'same' = several loop callbacks due at the same instant; 'minprio' = _min_priority + facilities"""
     big = tier == "thorough"
+    flavour = "queue" if queue else rng.choice(["bus", "calls", "calls", "same", "same", "minprio", "mix"])
+    calls = flavour in ("calls", "same", "mix")
+    minprio = flavour in ("minprio", "mix")
     nev = rng.randint(2, 6)
+    qev = nev + 1 if queue else None
     npid = rng.randint(3, 10 if not big else 14)
+    nleaf = rng.randint(2, 4) if calls else 0            # procedures used as delay callbacks / inline switch handlers
+    leafs = list(range(npid + 1, npid + 1 + nleaf))
     st = {"key": 0, "burst": []}
-    allkeys = []
+    top_ev = qev if queue else nev
 
     def radd():
         st["key"] += 1
-        allkeys.append(st["key"])
         cond = None
         if rng.random() < 0.25:
             cond = [rng.randint(1, KEYS), rng.choice([0, 1, 1, 2])]
         suffix = rng.choice([0, 0, 0, 0, 1, 2, -1])
         rel = rng.choice([0, 0, 0, 0, 1, -1])
-        return ["add", st["key"], rng.randint(1, nev), rng.randint(1, npid),
-                rng.choice([1, 1, 1, 1, 2, 2, 3, 0, 5, -2]), suffix, rel, rkw(rng, 2), cond]
+        bf = rng.choice([0, 1, 1, 2]) if minprio else 0
+        e = rng.randint(1, top_ev)
+        if queue and rng.random() < 0.3:
+            e = qev
+        return ["add", st["key"], e, rng.randint(1, npid),
+                rng.choice([1, 1, 1, 1, 2, 2, 3, 0, 5, -2]), suffix, rel, rkw(rng, 2), cond, bf]
 
     def rpost():
         ty = rng.choice(["none", "none", "none", "bool", "relay"])
         cb = rng.randint(1, npid) if rng.random() < 0.35 else None
-        return ["post", rng.randint(1, nev), ty, cb, rkw(rng, 3)]
+        kws = rkw(rng, 3)
+        if minprio and rng.random() < 0.5:
+            kws = kws + [[MPKEY, ["m", rmp(rng)]]]
+        return ["post", rng.randint(1, nev), ty, cb, kws]
 
     def rrepl():
         st["key"] += 1
-        return ["repl", st["key"], rng.randint(1, nev), rng.randint(1, npid), rng.choice([1, 1, 2, 0, 3]),
+        return ["repl", st["key"], rng.randint(1, top_ev), rng.randint(1, npid), rng.choice([1, 1, 2, 0, 3]),
                 rkw(rng, 1) if rng.random() < 0.5 else []]
 
     def rburst():
         """the same procedure registered 2-4 times for one event, equal or adjacent priorities"""
-        e, hp, base = rng.randint(1, nev), rng.randint(1, npid), rng.choice([1, 1, 2, 0])
+        e, hp, base = rng.randint(1, top_ev), rng.randint(1, npid), rng.choice([1, 1, 2, 0])
         out = []
         for _ in range(rng.randint(2, 4)):
             a = radd()
@@ -130,16 +180,35 @@ def gen_case(rng, tier, i):
             return ["rmm", rng.choice(st["burst"])]
         return ["rmm", rng.randint(1, npid)]
 
-    def ract():
+    def rcall(leaf):
+        """a call into DelayManager / SwitchController.  leaf procedures (the callbacks) only add / remove delays"""
+        r = rng.random()
+        name = rng.randint(1, 3)
+        if r < 0.30 or (leaf and r < 0.7):
+            return [rng.choice(["dadd", "dadd", "dreset"]), name, rng.choice(leafs), rng.choice([125, 125, 250])]
+        if leaf or r < 0.40:
+            return ["drm", name]
+        if r < 0.75:
+            return ["runnow", name]
+        return ["sw", rng.randrange(NSW)]
+
+    def ract(leaf=False):
+        r = rng.random()
+        if calls and r < (0.30 if not leaf else 0.15):
+            return rcall(leaf)
         r = rng.random()
         if r < 0.52:
             return rpost()
-        if r < 0.74:
+        if r < 0.72:
             return radd()
-        if r < 0.82:
+        if r < 0.79:
             return rrmm()
-        if r < 0.87:
+        if r < 0.84:
             return rrepl()
+        if r < 0.88:
+            return ["rme", rng.randint(1, top_ev), rng.randint(1, npid)]
+        if r < 0.90:
+            return ["rma", rng.randint(1, top_ev)]
         return ["rm", rng.randint(1, max(1, st["key"] + 3))]
 
     script = {}
@@ -149,41 +218,121 @@ def gen_case(rng, tier, i):
         for _ in range(rng.choice([1, 1, 2])):
             k = rng.randint(0, len(acts))
             acts[k:k] = rburst()
+    if queue:
+        for _ in range(rng.randint(2, 5)):       # the queue event has several handlers, kwargs collide with the posted ones
+            a = radd()
+            a[2] = qev
+            a[7] = rkw(rng, 3)
+            acts.insert(rng.randint(0, len(acts)), a)
     for p in range(1, npid + 1):
         progs = []
         for _ in range(rng.choice([1, 1, 2, 2, 3])):
-            progs.append({"acts": [ract() for _ in range(rng.choice([0, 1, 1, 2, 2, 3, 4]))], "ret": rret(rng)})
+            progs.append({"acts": [ract() for _ in range(rng.choice([0, 1, 1, 2, 2, 3, 4]))], "ret": rret(rng, minprio)})
         script[str(p)] = progs
+    for p in leafs:
+        script[str(p)] = [{"acts": [ract(True) for _ in range(rng.choice([1, 1, 2, 3]))], "ret": ["none"]}
+                          for _ in range(rng.choice([1, 2, 2, 3]))]
+    sw = [[rng.choice(leafs) for _ in range(rng.choice([1, 1, 2, 3]))] for _ in range(NSW)] if calls else []
     # the first turn starts with a registration phase so that dispatches have several handlers
     nturn = rng.choice([1, 1, 2, 3])
     turns = []
-    setup_pid = npid + 1
+    pid = npid + nleaf + 1
     posts = [rpost() for _ in range(rng.choice([1, 1, 2, 3]))]
-    script[str(setup_pid)] = [{"acts": (posts + acts) if late else (acts + posts), "ret": ["none"]}]
-    turns.append([rng.choice([0, 0, 1, 2, 3]), setup_pid])
+    pre = []
+    if calls:
+        pre = [["dadd", rng.randint(1, 3), rng.choice(leafs), rng.choice([125, 250])] for _ in range(rng.choice([0, 1, 2, 3]))]
+    script[str(pid)] = [{"acts": pre + ((posts + acts) if late else (acts + posts)), "ret": ["none"]}]
+    turns.append([rng.choice([0, 0, 1, 2, 3]), pid])
+
+    def rgroup():
+        """loop callbacks that are due at the same instant: delays and timed handlers of different switches"""
+        nonlocal pid
+        kinds = rng.sample([1, 3, 4, 5], rng.choice([2, 2, 3]))
+        g = []
+        for k in kinds:
+            pid += 1
+            script[str(pid)] = [{"acts": [ract() for _ in range(rng.randint(0, 2))] + [rpost()], "ret": ["none"]}]
+            g.append([k, pid])
+        return ["g", g]
+
     for t in range(1, nturn):
-        pid = npid + 1 + t
+        if flavour in ("same", "mix") and rng.random() < 0.8:
+            turns.append(rgroup())
+            continue
+        pid += 1
         script[str(pid)] = [{"acts": [ract() for _ in range(rng.randint(1, 4))] + [rpost()], "ret": ["none"]}]
         turns.append([rng.randint(0, 3), pid])
-    return {"nev": nev, "script": script, "turns": turns}
+    if flavour == "same" and not any(t[0] == "g" for t in turns):
+        turns.append(rgroup())
+    case = {"v": 2, "flavour": flavour, "nev": top_ev, "script": script, "turns": turns, "sw": sw}
+    if queue:
+        # exactly one post_queue in the whole script, for an event of its own; some of its handlers wait; later
+        # contexts clear the waits (clear is the last action of a context program: see NOTES.md)
+        pq = ["post", qev, "queue", rng.randint(1, npid), rkw(rng, 3) if rng.random() < 0.8 else []]
+        where = rng.random()
+        if where < 0.6:
+            script[str(turns[0][1])][0]["acts"].append(pq)
+        else:
+            cands = [str(p) for p in range(1, npid + 1) if script[str(p)]]
+            script[rng.choice(cands)][0]["acts"].append(pq)
+        qh = sorted({a[3] for a in script[str(turns[0][1])][0]["acts"] if a[0] == "add" and a[2] == qev})
+        for hp in qh:
+            if rng.random() < 0.45:
+                script[str(hp)][0]["ret"] = ["wait"]
+                if len(script[str(hp)]) > 1 and rng.random() < 0.3:
+                    script[str(hp)][1]["ret"] = ["wait"]
+        for _ in range(rng.choice([1, 2, 3, 4])):
+            pid += 1
+            a = [rpost()] if rng.random() < 0.4 else []
+            script[str(pid)] = [{"acts": a + [["clear"]], "ret": ["none"]}]
+            turns.append([rng.choice([0, 0, 1, 3]), pid])
+        case["qev"] = qev
+    return case
+
+
+def gen_queue(rng, tier, i):
+    return gen_case(rng, tier, i, queue=True)
 
 
 # ------------------------------------------------------------------------------------------------
 # implementation runner
 def worker_init():
     from rig import Rig
-    r = Rig({"switches": {"s_c01": {"number": "1"}, "s_c01t": {"number": "2"}}})
+    sws = {"s_c01": {"number": "1"}, "s_c01t": {"number": "2"}, "s_c01u": {"number": "3"}}
+    for k in range(NSW):
+        sws["s_c01i%d" % k] = {"number": str(10 + k)}
+    r = Rig({"switches": sws})
     r.start()
     _G["rig"] = r
     _G["n"] = 0
 
 
 def kname(k):
+    if k == MPKEY:
+        return "_min_priority"
     return "ev_result" if k == 0 else "k%d" % k
 
 
+def mpdict(m):
+    return {("all" if f == 0 else "f%d" % f): int(n) for f, n in m}
+
+
 def pyval(v):
+    if v[0] == "m":
+        return mpdict(v[1])
     return {"z": lambda: int(v[1]), "b": lambda: bool(v[1]), "n": lambda: None}[v[0]]()
+
+
+def canon_mp(d):
+    out = []
+    for k, x in d.items():
+        if k == "all":
+            out.append([0, int(x)])
+        elif k.startswith("f") and k[1:].isdigit():
+            out.append([int(k[1:]), int(x)])
+        else:
+            out.append([-99, 0])
+    return sorted(out)
 
 
 def canon_val(v):
@@ -194,6 +343,8 @@ def canon_val(v):
     if v is None:
         return ["n"]
     if isinstance(v, dict):
+        if list(v.keys()) == ["_min_priority"] and isinstance(v["_min_priority"], dict):
+            return ["mp", canon_mp(v["_min_priority"])]
         return ["m", sorted([[knum(k), int(x)] for k, x in v.items()])]
     return ["?", repr(v)]
 
@@ -201,13 +352,21 @@ def canon_val(v):
 def knum(k):
     if k == "ev_result":
         return 0
+    if k == "_min_priority":
+        return MPKEY
     if k.startswith("k") and k[1:].isdigit():
         return int(k[1:])
-    return -1
+    return -99
 
 
 def canon_kw(d):
-    return sorted([[knum(k), canon_val(v)] for k, v in d.items()])
+    out = []
+    for k, v in d.items():
+        if k == "_min_priority" and isinstance(v, dict):
+            out.append([MPKEY, ["m", canon_mp(v)]])
+        else:
+            out.append([knum(k), canon_val(v)])
+    return sorted(out)
 
 
 class _Method:
@@ -230,20 +389,40 @@ class _Method:
         return hash(("c01", self.pid))
 
 
+def turn_groups(case):
+    """the scripted contexts, as groups of contexts that are armed at the same instant"""
+    out = []
+    for t in case["turns"]:
+        out.append([list(m) for m in t[1]] if t[0] == "g" else [[t[0], t[1]]])
+    return out
+
+
 def run_impl(case):
     if "rig" not in _G:
         worker_init()
     rig = _G["rig"]
     _G["n"] += 1
     pre = "c01x%d_e" % _G["n"]
+    dpre = "c01d%d_" % _G["n"]
     ev = rig.machine.events
+    dm = rig.machine.delay
+    swc = rig.machine.switch_controller
     script = case["script"]
     cnt = {}
     keymap = {}
     trace = []
     npost = [0]
+    depth = [0]          # number of script programs that are running right now
+    waiting = []         # QueuedEvents on which a handler of a queue event waits
 
     def run_prog(pid):
+        depth[0] += 1
+        try:
+            return run_prog1(pid)
+        finally:
+            depth[0] -= 1
+
+    def run_prog1(pid):
         k = cnt.get(pid, 0)
         cnt[pid] = k + 1
         progs = script.get(str(pid), [])
@@ -258,13 +437,13 @@ def run_impl(case):
                 cbf = None
                 if cb is not None:
                     def cbf(_i=i, _cb=cb, **kwargs):
-                        trace.append(["C", _i, _cb, canon_kw(kwargs)])
+                        trace.append(["C", _i, _cb, canon_kw(kwargs), depth[0]])
                         run_prog(_cb)
-                f = {"none": ev.post, "bool": ev.post_boolean, "relay": ev.post_relay}[ty]
+                f = {"none": ev.post, "bool": ev.post_boolean, "relay": ev.post_relay, "queue": ev.post_queue}[ty]
                 f(pre + str(e), cbf, **kwargs)
             elif a[0] == "add":
-                _, key, e, hp, prio, suffix, rel, hk, cond = a
-
+                key, e, hp, prio, suffix, rel, hk, cond = a[1:9]
+                bf = a[9] if len(a) > 9 else 0
                 h = _Method(key, hp, e, call)
                 if rel != 0:
                     h.relative_priority = rel
@@ -273,24 +452,47 @@ def run_impl(case):
                     name += ".%d" % suffix
                 if cond is not None:
                     name += "{k%d==%d}" % (cond[0], cond[1])
-                keymap[key] = ev.add_handler(name, h, prio, **{kname(kk): pyval(v) for kk, v in hk})
+                keymap[key] = ev.add_handler(name, h, prio, ("f%d" % bf) if bf else None,
+                                             **{kname(kk): pyval(v) for kk, v in hk})
             elif a[0] == "rm":
                 if a[1] in keymap:
                     ev.remove_handler_by_key(keymap[a[1]])
             elif a[0] == "rmm":
                 ev.remove_handler(_Method(None, a[1], None, None))
+            elif a[0] == "rme":
+                ev.remove_handler_by_event(pre + str(a[1]), _Method(None, a[2], None, None))
+            elif a[0] == "rma":
+                ev.remove_all_handlers_for_event(pre + str(a[1]))
             elif a[0] == "repl":
                 _, key, e, hp, prio, hk = a
                 keymap[key] = ev.replace_handler(pre + str(e), _Method(key, hp, e, call), prio,
                                                  **{kname(kk): pyval(v) for kk, v in hk})
+            elif a[0] in ("dadd", "dreset"):
+                _, name, cpid, ms = a
+                f = dm.add if a[0] == "dadd" else dm.reset
+                f(ms, dcb(name, cpid), dpre + str(name))
+            elif a[0] == "drm":
+                dm.remove(dpre + str(a[1]))
+            elif a[0] == "runnow":
+                dm.run_now(dpre + str(a[1]))
+            elif a[0] == "sw":
+                swc.process_switch("s_c01i%d" % a[1], state=1, logical=True)
+                swc.process_switch("s_c01i%d" % a[1], state=0, logical=True)
+            elif a[0] == "clear":
+                if waiting:
+                    waiting.pop(0).clear()
         return progs[k]["ret"]
 
     def call(m, kwargs):
-        trace.append(["I", m._c01key, m.pid, m.e, canon_kw(kwargs)])
-        return ret_val(run_prog(m.pid))
-
-    def run_prog_ret(pid):
-        return run_prog(pid)
+        q = kwargs.pop("queue", None)
+        trace.append(["I", m._c01key, m.pid, m.e, canon_kw(kwargs), depth[0]])
+        r = run_prog(m.pid)
+        if r is not None and r[0] == "wait":
+            if q is not None:
+                q.wait()
+                waiting.append(q)
+            return None
+        return ret_val(r)
 
     def ret_val(r):
         if r is None or r[0] == "none":
@@ -299,56 +501,127 @@ def run_impl(case):
             return bool(r[1])
         if r[0] == "z":
             return int(r[1])
+        if r[0] == "mp":
+            return {"_min_priority": mpdict(r[1])}
         return {kname(k): int(v) for k, v in r[1]}
 
-    err = None
-    try:
-        for kind, pid in case["turns"]:
-            def ctx(_pid=pid, **kwargs):
-                trace.append(["X", _pid])
-                run_prog(_pid)
-            if kind == 0:
-                ctx()
-                rig.advance(0.01)
-            elif kind == 1:
-                rig.machine.delay.add(ms=125, callback=ctx)
-                rig.advance(0.25)
-            elif kind == 2:
-                sh = rig.machine.switch_controller.add_switch_handler("s_c01", ctx, state=1, ms=0)
-                rig.machine.switch_controller.process_switch("s_c01", state=1, logical=True)
-                rig.advance(0.01)
-                rig.machine.switch_controller.remove_switch_handler_by_key(sh)
-                rig.machine.switch_controller.process_switch("s_c01", state=0, logical=True)
-                rig.advance(0.01)
+    def begin_ctx(pid, src):
+        trace.append(["Q", len(ev.event_queue), len(ev.callback_queue)])
+        trace.append(["X", pid, src, depth[0]])
+
+    def dcb(name, cpid):
+        """callback of a delay added by a program: a context when the delay expires, inline when run_now calls it"""
+        def f(**kwargs):
+            if depth[0] > 0:
+                trace.append(["S", cpid])
             else:
-                sh = rig.machine.switch_controller.add_switch_handler("s_c01t", ctx, state=1, ms=125)
-                rig.machine.switch_controller.process_switch("s_c01t", state=1, logical=True)
+                begin_ctx(cpid, ["d", name])
+            run_prog(cpid)
+        return f
+
+    def swh(cpid):
+        def f(**kwargs):
+            if depth[0] > 0:
+                trace.append(["S", cpid])
+            else:
+                begin_ctx(cpid, ["t"])
+            run_prog(cpid)
+        return f
+
+    def mkctx(pid):
+        def ctx(**kwargs):
+            begin_ctx(pid, ["t"])
+            run_prog(pid)
+        return ctx
+
+    inline_keys = []
+    for k, pids in enumerate(case.get("sw") or []):
+        for cpid in pids:
+            inline_keys.append(swc.add_switch_handler("s_c01i%d" % k, swh(cpid), state=1, ms=0))
+
+    err = None
+    TSW = {3: "s_c01t", 4: "s_c01u"}
+    try:
+        for group in turn_groups(case):
+            if len(group) == 1 and group[0][0] in (0, 2):
+                kind, pid = group[0]
+                if kind == 0:
+                    mkctx(pid)()
+                    rig.advance(0.01)
+                else:
+                    sh = swc.add_switch_handler("s_c01", mkctx(pid), state=1, ms=0)
+                    swc.process_switch("s_c01", state=1, logical=True)
+                    rig.advance(0.01)
+                    swc.remove_switch_handler_by_key(sh)
+                    swc.process_switch("s_c01", state=0, logical=True)
+                    rig.advance(0.01)
+            else:
+                # every member is armed at the same instant with the same 125 ms: all are due in one loop iteration
+                shs = []
+                for kind, pid in group:
+                    if kind in TSW:
+                        shs.append((TSW[kind], swc.add_switch_handler(TSW[kind], mkctx(pid), state=1, ms=125)))
+                for kind, pid in group:
+                    if kind in TSW:
+                        swc.process_switch(TSW[kind], state=1, logical=True)
+                    else:
+                        dm.add(ms=125, callback=mkctx(pid))
                 rig.advance(0.25)
-                rig.machine.switch_controller.remove_switch_handler_by_key(sh)
-                rig.machine.switch_controller.process_switch("s_c01t", state=0, logical=True)
-                rig.advance(0.01)
-            trace.append(["Q", len(ev.event_queue), len(ev.callback_queue)])
+                for name, sh in shs:
+                    swc.remove_switch_handler_by_key(sh)
+                    swc.process_switch(name, state=0, logical=True)
+                if shs:
+                    rig.advance(0.01)
             if rig.exception() is not None:
                 err = repr(rig.exception())[:300]
                 break
+        if err is None:
+            rig.advance(0.75)        # delays added by the programs expire
+            if rig.exception() is not None:
+                err = repr(rig.exception())[:300]
+        trace.append(["Q", len(ev.event_queue), len(ev.callback_queue)])
     except Exception as e:   # noqa  (what the code may raise is returned as data)
         err = "%s: %s" % (type(e).__name__, str(e)[:300])
     final = []
     for e in range(1, case["nev"] + 1):
         hs = ev.registered_handlers.get(pre + str(e)) if (pre + str(e)) in ev.registered_handlers else []
         final.append([getattr(h.callback, "_c01key", -1) for h in hs])
+    pending = [int(n[len(dpre):]) for n in reversed(list(dm.delays)) if n.startswith(dpre)]
     # leave the shared rig clean
     for k in keymap.values():
         ev.remove_handler_by_key(k)
-    if err is not None:
+    for e in range(1, case["nev"] + 1):
+        ev.remove_all_handlers_for_event(pre + str(e))
+    for n in list(dm.delays):
+        if n.startswith(dpre):
+            dm.remove(n)
+    for sh in inline_keys:
+        swc.remove_switch_handler_by_key(sh)
+    for q in waiting:          # finish the task of a queue event that is still waiting
+        try:
+            q.clear()
+        except Exception:   # noqa
+            pass
+    depth[0] = 1000            # whatever still runs for this case is no longer recorded as a context
+    script = {}
+    trace_out = list(trace)
+    try:
+        rig.advance(0.01)
+    except Exception:   # noqa
+        pass
+    if err is not None or rig.exception() is not None:
         ev.event_queue.clear()
         ev.callback_queue.clear()
         rig._exception = None
-    return {"trace": trace, "final": final, "err": err}
+    return {"trace": trace_out, "final": final, "pending": pending, "err": err}
 
 
 # ------------------------------------------------------------------------------------------------
 # Coq printers
+def czz(m):
+    return coqlist("(%s,%s)" % (zlit(k), zlit(x)) for k, x in m)
+
+
 def cval(v):
     if v[0] == "z":
         return "(VZ %s)" % zlit(v[1])
@@ -357,7 +630,9 @@ def cval(v):
     if v[0] == "n":
         return "VNone"
     if v[0] == "m":
-        return "(VMap %s)" % coqlist("(%s,%s)" % (zlit(k), zlit(x)) for k, x in v[1])
+        return "(VMap %s)" % czz(v[1])
+    if v[0] == "mp":
+        return "(VMP %s)" % czz(v[1])
     raise ValueError(v)
 
 
@@ -372,28 +647,49 @@ def cret(r):
         return "(RB %s)" % blit(r[1])
     if r[0] == "z":
         return "(RZ %s)" % zlit(r[1])
-    return "(RMap %s)" % coqlist("(%s,%s)" % (zlit(k), zlit(x)) for k, x in r[1])
+    if r[0] == "wait":
+        return "RWait"
+    if r[0] == "mp":
+        return "(RMinPrio %s)" % czz(r[1])
+    return "(RMap %s)" % czz(r[1])
 
 
-def cact(a):
+def cact(a, case):
     if a[0] == "post":
-        ty = {"none": "TNone", "bool": "TBool", "relay": "TRelay"}[a[2]]
+        ty = {"none": "TNone", "bool": "TBool", "relay": "TRelay", "queue": "TQueue"}[a[2]]
         return "(APost %s %s %s %s)" % (zlit(a[1]), ty, opt(a[3], zlit), ckw(a[4]))
     if a[0] == "add":
-        _, key, e, hp, prio, suffix, rel, hk, cond = a
+        key, e, hp, prio, suffix, rel, hk, cond = a[1:9]
+        bf = a[9] if len(a) > 9 else 0
         c = "None" if cond is None else "(Some (%s,%s))" % (zlit(cond[0]), zlit(cond[1]))
-        return "(AAdd %s %s %s %s %s %s %s %s)" % (zlit(key), zlit(e), zlit(hp), zlit(prio), zlit(suffix), zlit(rel),
-                                                   ckw(hk), c)
+        return "(AAdd %s %s %s %s %s %s %s %s %s)" % (zlit(key), zlit(e), zlit(hp), zlit(prio), zlit(suffix), zlit(rel),
+                                                      ckw(hk), c, zlit(bf))
     if a[0] == "rmm":
         return "(ARemoveMethod %s)" % zlit(a[1])
+    if a[0] == "rme":
+        return "(ARemoveByEvent %s %s)" % (zlit(a[1]), zlit(a[2]))
+    if a[0] == "rma":
+        return "(ARemoveAll %s)" % zlit(a[1])
     if a[0] == "repl":
         return "(AReplace %s %s %s %s %s)" % (zlit(a[1]), zlit(a[2]), zlit(a[3]), zlit(a[4]), ckw(a[5]))
+    if a[0] in ("dadd", "dreset"):
+        return "(ADelayAdd %s %s)" % (zlit(a[1]), zlit(a[2]))
+    if a[0] == "drm":
+        return "(ADelayRemove %s)" % zlit(a[1])
+    if a[0] == "runnow":
+        return "(ARunNow %s)" % zlit(a[1])
+    if a[0] == "sw":
+        return "(ASwitch %s)" % coqlist(zlit(p) for p in case["sw"][a[1]])
+    if a[0] == "clear":
+        return "AClear"
     return "(ARemove %s)" % zlit(a[1])
 
 
 def cobs(o):
     if o[0] == "X":
         return "(Ctx %s)" % zlit(o[1])
+    if o[0] == "S":
+        return "(Sub %s)" % zlit(o[1])
     if o[0] == "I":
         return "(Invoke %s %s %s %s)" % (zlit(o[1]), zlit(o[2]), zlit(o[3]), ckw(o[4]))
     if o[0] == "C":
@@ -401,31 +697,40 @@ def cobs(o):
     return "(Quiet %s %s)" % (zlit(o[1]), zlit(o[2]))
 
 
+def tlist(ty, items):
+    return coqlist(items) if items else "(@nil %s)" % ty
+
+
 def has_unknown(out):
-    return "?" in json.dumps(out["trace"]) and any(
-        v[0] == "?" for o in out["trace"] if o[0] in ("I", "C") for _, v in o[-1])
+    return '"?"' in json.dumps(out["trace"]) or "-99" in json.dumps(out["trace"])
 
 
 def coq_case(case, out):
     if out.get("err") is not None or has_unknown(out):
         return None      # reported by the oracle ("exception"); outside the model's domain
-    sc = coqlist("(%s,%s)" % (zlit(int(p)), coqlist("(mkP %s %s)" % (coqlist(cact(a) for a in pr["acts"]), cret(pr["ret"]))
+    sc = coqlist("(%s,%s)" % (zlit(int(p)), coqlist("(mkP %s %s)" % (coqlist(cact(a, case) for a in pr["acts"]), cret(pr["ret"]))
                                                     for pr in progs))
                  for p, progs in sorted(case["script"].items(), key=lambda kv: int(kv[0])))
-    turns = coqlist(zlit(p) for _, p in case["turns"])
+    # the contexts in the order in which the loop ran them (asyncio does not fix the order of callbacks that are due at
+    # the same instant; the oracle checks that the scripted ones all ran)
+    turns = tlist("titem", [("(TFire %s)" % zlit(o[2][1])) if o[2][0] == "d" else ("(TRun %s)" % zlit(o[1]))
+                            for o in out["trace"] if o[0] == "X"])
     evs = coqlist(zlit(e) for e in range(1, case["nev"] + 1))
-    exp = "(true, %s, %s)" % (coqlist(cobs(o) for o in out["trace"]),
-                              coqlist(coqlist(zlit(k) for k in l) for l in out["final"]))
+    exp = "(true, %s, %s, %s)" % (coqlist(cobs(o) for o in out["trace"]),
+                                  coqlist(tlist("Z", [zlit(k) for k in l]) for l in out["final"]),
+                                  tlist("Z", [zlit(n) for n in out.get("pending", [])]))
     return "((%s, %s, %s), %s)" % (sc, turns, evs, exp)
 
 
 HDR = "From C01 Require Import Model.\nDefinition run := c01_run.\nDefinition out_eqb := c01_out_eqb.\n"
+HDRQ = "From C01 Require Import Model.\nDefinition run := c01q_run.\nDefinition out_eqb := c01_out_eqb.\n"
 
 
 # ------------------------------------------------------------------------------------------------
 # oracle: acceptor for the property's language.  It interprets the scripts at specification level (a set of live
-# registrations, one pending list with "posted during an event goes in front", a set of pending callbacks) and
-# checks every observation of the implementation against what the property permits at that point.
+# registrations, one pending list with "posted during an event goes in front", a set of pending callbacks, a table of
+# pending delays, the task of a queue event) and checks every observation of the implementation against what the
+# property permits at that point.  It does not know the queue-stack algorithm, the callback queue or asyncio.
 class Reject(Exception):
     def __init__(self, sig, what):
         super().__init__(what)
@@ -449,8 +754,24 @@ def cond_ok(cond, kw):
     return int(v[1]) == cond[1]
 
 
+def blocked(kw, r):
+    """the handler has a blocking facility and its priority is below the event's _min_priority ('all' or its facility)"""
+    if not r.get("bf"):
+        return False
+    mp = dict((k, v) for k, v in kw).get(MPKEY)
+    if mp is None or mp[0] != "m":
+        return False
+    m = dict((f, n) for f, n in mp[1])
+    return m.get(0, r["prio"]) > r["prio"] or m.get(r["bf"], r["prio"]) > r["prio"]
+
+
+def may_call(kw, r):
+    return not blocked(kw, r) and cond_ok(r["cond"], kw_merge(kw, r["kw"]))
+
+
 class Acceptor:
     def __init__(self, case, fastpath):
+        self.case = case
         self.script = case["script"]
         self.fast = fastpath
         self.cnt = {}
@@ -463,8 +784,15 @@ class Acceptor:
         self.npost = 0
         self.done_cbs = set()
         self.dropped = 0
+        self.delays = {}      # name -> callback procedure (pending delays, insertion ordered)
+        self.expect = []      # callbacks that the program interpreted last must have run inline, in this order
+        self.task = None      # the task of the queue event
 
     # -- script interpretation (effects of one invocation) -----------------------------------------
+    def inline(self, pid, sink):
+        self.expect.append(pid)
+        self.run_prog(pid, sink)
+
     def run_prog(self, pid, sink):
         k = self.cnt.get(pid, 0)
         self.cnt[pid] = k + 1
@@ -481,16 +809,22 @@ class Acceptor:
                     continue
                 sink.append({"id": i, "e": e, "ty": ty, "cb": cb, "kw": kw_merge([], kws)})
             elif a[0] == "add":
-                _, key, e, hp, prio, suffix, rel, hk, cond = a
+                key, e, hp, prio, suffix, rel, hk, cond = a[1:9]
                 self.seq += 1
                 r = {"key": key, "e": e, "pid": hp, "prio": prio + suffix + rel, "seq": self.seq,
-                     "kw": kw_merge([], hk), "cond": cond}
+                     "kw": kw_merge([], hk), "cond": cond, "bf": a[9] if len(a) > 9 else 0}
                 self.live[key] = r
                 self.known[key] = r
             elif a[0] == "rm":
                 self.live.pop(a[1], None)
             elif a[0] == "rmm":
                 for key in [key for key, r in self.live.items() if r["pid"] == a[1]]:
+                    del self.live[key]
+            elif a[0] == "rme":
+                for key in [key for key, r in self.live.items() if r["e"] == a[1] and r["pid"] == a[2]]:
+                    del self.live[key]
+            elif a[0] == "rma":
+                for key in [key for key, r in self.live.items() if r["e"] == a[1]]:
                     del self.live[key]
             elif a[0] == "repl":
                 _, key, e, hp, prio, hk = a
@@ -500,23 +834,51 @@ class Acceptor:
                     del self.live[k2]
                 self.seq += 1
                 r = {"key": key, "e": e, "pid": hp, "prio": prio, "seq": self.seq, "kw": kw_merge([], hk),
-                     "cond": None}
+                     "cond": None, "bf": 0}
                 self.live[key] = r
                 self.known[key] = r
+            elif a[0] in ("dadd", "dreset"):
+                self.delays.pop(a[1], None)
+                self.delays[a[1]] = a[2]
+            elif a[0] == "drm":
+                self.delays.pop(a[1], None)
+            elif a[0] == "runnow":
+                # the callback of a pending delay runs now, once, inside this program; what it posts is posted by this program
+                if a[1] in self.delays:
+                    self.inline(self.delays.pop(a[1]), sink)
+            elif a[0] == "sw":
+                for cpid in self.case["sw"][a[1]]:
+                    self.inline(cpid, sink)
+            elif a[0] == "clear":
+                if self.task is not None and self.task["waiting"]:
+                    self.task["waiting"] = False
         return progs[k]["ret"]
 
     # -- dispatch bookkeeping ------------------------------------------------------------------------
+    def snapshot(self, e):
+        return sorted([r for r in self.live.values() if r["e"] == e], key=lambda r: (-r["prio"], r["seq"]))
+
     def begin(self, post):
-        snap = sorted([r for r in self.live.values() if r["e"] == post["e"]], key=lambda r: (-r["prio"], r["seq"]))
-        self.cur = {"post": post, "todo": snap, "done": [], "kw": post["kw"], "new": [], "aborted": False,
-                    "result": ["none"]}
+        if post["ty"] == "queue":
+            # a queue event: its handlers run later, one after the other, possibly waiting in between; without a handler
+            # the callback is due like any other completion callback
+            if not any(r["e"] == post["e"] for r in self.live.values()):
+                self.cbs[post["id"]] = (post["cb"], post["kw"])
+            else:
+                self.task = {"post": post, "todo": None, "done": [], "waiting": False, "step": False, "finished": False}
+            self.cur = None
+            return
+        self.cur = {"post": post, "todo": self.snapshot(post["e"]), "done": [], "kw": post["kw"], "new": [],
+                    "aborted": False, "result": ["none"]}
 
     def finish(self):
         c = self.cur
+        if c is None:
+            return
         # every handler of the snapshot that is still registered and whose condition holds must have been called
         if not c["aborted"]:
             for r in c["todo"]:
-                if r["key"] in self.live and cond_ok(r["cond"], kw_merge(c["kw"], r["kw"])):
+                if r["key"] in self.live and may_call(c["kw"], r):
                     raise Reject("handler-missed", "handler %d (priority %d) registered for event %d when its dispatch "
                                  "began was not called" % (r["key"], r["prio"], r["e"]))
         p = c["post"]
@@ -530,10 +892,109 @@ class Acceptor:
         self.pending = c["new"] + self.pending        # posted during the event: before anything already waiting
         self.cur = None
 
+    def task_obs_guard(self):
+        """an observation that does not belong to the running step of the queue event's task"""
+        t = self.task
+        if t is not None and t["step"]:
+            raise Reject("queue-handler-missed", "the task of queue event %d (post #%d) stopped without waiting and without "
+                         "calling the remaining handlers and the callback" % (t["post"]["e"], t["post"]["id"]))
+
+    def on_task_invoke(self, key, pid, e, kw, r):
+        if self.task is None:
+            # the queue event itself may still be waiting behind events that call nobody
+            try:
+                self.flush_silent()
+            except Reject as rj:
+                raise Reject("dispatch-order", "handler %d of queue event %d ran while posted events were still to be "
+                             "dispatched (%s)" % (key, e, rj.what))
+        t = self.task
+        if t is None or t["finished"]:
+            raise Reject("invoke-without-event", "handler %d called for queue event %d although no such event is in "
+                         "progress" % (key, e))
+        if not t["step"]:
+            try:
+                self.flush_silent()
+            except Reject as rj:
+                raise Reject("dispatch-order", "handler %d of queue event %d ran while posted events were still to be "
+                             "dispatched (%s)" % (key, e, rj.what))
+            if self.cbs:
+                raise Reject("callback-missed", "completion callbacks of posts %s had not run when the task of the queue "
+                             "event went on" % sorted(self.cbs))
+            if t["waiting"]:
+                raise Reject("queue-wait-ignored", "handler %d of queue event %d called although handler %d still waits"
+                             % (key, e, t["done"][-1]["key"]))
+            if t["todo"] is None:
+                t["todo"] = self.snapshot(e)
+            t["step"] = True
+        post = t["post"]
+        if not any(x["key"] == key for x in t["todo"]):
+            if any(x["key"] == key for x in t["done"]):
+                raise Reject("handler-twice", "handler %d called twice for queue event %d" % (key, e))
+            if key not in self.live:
+                raise Reject("removed-handler-invoked", "handler %d was removed before the task of queue event %d began and "
+                             "is still called" % (key, e))
+            raise Reject("handler-not-in-snapshot", "handler %d, registered after the task of queue event %d began, was "
+                         "called by it" % (key, e))
+        want = kw_merge(post["kw"], r["kw"])
+        if not cond_ok(r["cond"], want):
+            raise Reject("condition-ignored", "handler %d called although its condition is false on %s" % (key, want))
+        idx = [x["key"] for x in t["todo"]].index(key)
+        keep = []
+        for x in t["todo"][:idx]:
+            if x["key"] not in self.live:
+                keep.append(x)
+            elif cond_ok(x["cond"], kw_merge(post["kw"], x["kw"])):
+                if x["prio"] > r["prio"]:
+                    raise Reject("handler-order", "handler %d (priority %d) called before (or instead of) handler %d "
+                                 "(priority %d) of queue event %d" % (key, r["prio"], x["key"], x["prio"], e))
+                keep.append(x)
+        t["todo"] = keep + t["todo"][idx + 1:]
+        t["done"].append(r)
+        if want != kw:
+            raise Reject("kwargs-merge", "handler %d of queue event %d got %s; posted %s, registered with the handler %s" %
+                         (key, e, kw, post["kw"], r["kw"]))
+        ret = self.run_prog(pid, self.pending)
+        if ret == ["wait"]:
+            t["waiting"] = True
+            t["step"] = False
+
+    def on_task_callback(self, i, pid, kw):
+        t = self.task
+        if t["finished"]:
+            raise Reject("callback-twice", "completion callback of queue post #%d ran twice" % i)
+        if not t["step"]:
+            # the task has no handler to call any more (or none at all): everything posted so far comes first
+            try:
+                self.flush_silent()
+            except Reject as rj:
+                raise Reject("callback-early", "completion callback of queue post #%d ran while events were still to be "
+                             "dispatched (%s)" % (i, rj.what))
+            if t["todo"] is None:
+                t["todo"] = self.snapshot(t["post"]["e"])
+        if t["waiting"]:
+            raise Reject("queue-callback-before-clear", "completion callback of queue post #%d ran although handler %d "
+                         "still waits" % (i, t["done"][-1]["key"]))
+        for r in t["todo"]:
+            if r["key"] in self.live and cond_ok(r["cond"], kw_merge(t["post"]["kw"], r["kw"])):
+                raise Reject("handler-missed", "handler %d (priority %d) of queue event %d was not called before the "
+                             "completion callback" % (r["key"], r["prio"], r["e"]))
+        if pid != t["post"]["cb"] or kw != t["post"]["kw"]:
+            raise Reject("callback-kwargs", "completion callback of queue post #%d got %s, posted %s" %
+                         (i, kw, t["post"]["kw"]))
+        t["finished"] = True
+        t["step"] = False
+        self.done_cbs.add(i)
+        self.run_prog(pid, self.pending)
+
     def on_invoke(self, key, pid, e, kw):
         r = self.known.get(key)
         if r is None:
             raise Reject("invoke-unknown", "handler %d was never registered" % key)
+        if pid != r["pid"] or e != r["e"]:
+            raise Reject("invoke-wrong-handler", "registration %d: observed pid/event differ" % key)
+        if e == self.case.get("qev"):
+            return self.on_task_invoke(key, pid, e, kw, r)
+        self.task_obs_guard()
         c0 = self.cur
         try:
             # find the dispatch the observation belongs to: the one in progress, or - after completing it and every
@@ -544,9 +1005,11 @@ class Acceptor:
                         raise Reject("invoke-without-event", "handler %d called for event %d although no posted event "
                                      "is waiting" % (key, e))
                     self.begin(self.pending.pop(0))
+                    if self.cur is None:
+                        continue
                 c = self.cur
                 if c["post"]["e"] == e and not c["aborted"] and any(x["key"] == key for x in c["todo"]) and \
-                        cond_ok(r["cond"], kw_merge(c["kw"], r["kw"])):
+                        may_call(c["kw"], r):
                     break
                 self.finish()
         except Reject as rj:
@@ -561,6 +1024,9 @@ class Acceptor:
                              "called in that dispatch" % (key, e))
             if c0 is not None and c0["post"]["e"] == e and not c0["aborted"] and \
                     any(x["key"] == key for x in c0["todo"]):
+                if blocked(c0["kw"], r):
+                    raise Reject("min-priority-ignored", "handler %d (facility %d, priority %d) called although the "
+                                 "event's _min_priority is %s" % (key, r["bf"], r["prio"], c0["kw"]))
                 raise Reject("condition-ignored", "handler %d called although its condition is false on %s" %
                              (key, kw_merge(c0["kw"], r["kw"])))
             if rj.sig == "handler-missed" and self.cur is not None and self.cur["post"]["e"] != e:
@@ -576,7 +1042,7 @@ class Acceptor:
         for x in c["todo"][:idx]:
             if x["key"] not in self.live:
                 keep.append(x)          # removed before its turn: the property leaves it open whether it is called
-            elif cond_ok(x["cond"], kw_merge(c["kw"], x["kw"])):
+            elif may_call(c["kw"], x):
                 if x["prio"] > r["prio"]:
                     raise Reject("handler-order", "handler %d (priority %d) called before (or instead of) handler %d "
                                  "(priority %d) in the dispatch of event %d" % (key, r["prio"], x["key"], x["prio"], e))
@@ -587,20 +1053,22 @@ class Acceptor:
         if want != kw:
             raise Reject("kwargs-merge", "handler %d got %s; posted (+relayed) %s, registered with the handler %s" %
                          (key, kw, c["kw"], r["kw"]))
-        if pid != r["pid"] or e != r["e"]:
-            raise Reject("invoke-wrong-handler", "registration %d: observed pid/event differ" % key)
         ret = self.run_prog(pid, c["new"])
         c["result"] = ret
         if c["post"]["ty"] == "bool" and ret == ["b", 0]:
             c["aborted"] = True
             c["todo"] = []
+        elif ret[0] == "mp":
+            c["kw"] = kw_merge(c["kw"], [[MPKEY, ["m", ret[1]]]])
         elif c["post"]["ty"] == "relay" and ret[0] == "m":
             c["kw"] = kw_merge(c["kw"], [[k, ["z", v]] for k, v in ret[1]])
 
     def silent(self, post):
         """a waiting event whose dispatch would call nobody (so it produces no observation)"""
+        if post["ty"] == "queue":
+            return True
         for r in self.live.values():
-            if r["e"] == post["e"] and cond_ok(r["cond"], kw_merge(post["kw"], r["kw"])):
+            if r["e"] == post["e"] and may_call(post["kw"], r):
                 return False
         return True
 
@@ -618,11 +1086,16 @@ class Acceptor:
             self.begin(self.pending.pop(0))
 
     def on_callback(self, i, pid, kw):
+        if self.task is not None and self.task["post"]["id"] == i:
+            return self.on_task_callback(i, pid, kw)
+        self.task_obs_guard()
         try:
             self.flush_silent()
         except Reject as rj:
             raise Reject("callback-early", "completion callback of post #%d ran while events were still to be "
                          "dispatched (%s)" % (i, rj.what))
+        if self.task is not None and self.task["post"]["id"] == i:
+            return self.on_task_callback(i, pid, kw)
         if i in self.done_cbs:
             raise Reject("callback-twice", "completion callback of post #%d ran twice" % i)
         if i not in self.cbs:
@@ -632,10 +1105,22 @@ class Acceptor:
         self.done_cbs.add(i)
         if cpid != pid:
             raise Reject("callback-unknown", "post #%d: wrong callback" % i)
+        if want != kw:
+            raise Reject("callback-kwargs", "completion callback of post #%d got %s, expected %s" % (i, kw, want))
         self.run_prog(pid, self.pending)
 
-    def on_ctx(self, pid):
-        self.end_turn()
+    def on_ctx(self, pid, src):
+        self.task_obs_guard()
+        try:
+            self.end_turn()
+        except Reject as rj:
+            raise Reject("not-drained-before-next-context", "a context (procedure %d) ran although what the previous "
+                         "context posted had not been dispatched completely: %s" % (pid, rj.what))
+        if src[0] == "d":
+            if self.delays.get(src[1]) != pid:
+                raise Reject("delay-fired-not-pending", "delay %d expired and ran procedure %d; pending delays: %s" %
+                             (src[1], pid, self.delays))
+            del self.delays[src[1]]
         self.run_prog(pid, self.pending)
 
     def end_turn(self):
@@ -643,20 +1128,53 @@ class Acceptor:
         if self.cbs:
             raise Reject("callback-missed", "completion callbacks of posts %s never ran" % sorted(self.cbs))
 
-    def walk(self, trace):
+    def walk(self, trace, out):
         for o in trace:
+            if self.expect and o[0] != "S":
+                raise Reject("inline-callback-missing", "procedure %d should have been run inline (run_now / "
+                             "process_switch) before anything else happens" % self.expect[0])
             if o[0] == "X":
-                self.on_ctx(o[1])
+                if o[3]:
+                    raise Reject("dispatch-nested", "context (procedure %d) started while another program was running"
+                                 % o[1])
+                self.on_ctx(o[1], o[2])
+            elif o[0] == "S":
+                if not self.expect or self.expect[0] != o[1]:
+                    raise Reject("inline-callback-unexpected", "procedure %d was run inline; expected %s" %
+                                 (o[1], self.expect[:1]))
+                self.expect.pop(0)
             elif o[0] == "I":
+                if o[5]:
+                    raise Reject("dispatch-nested", "handler %d of event %d was called while another handler, callback or "
+                                 "context was still running (re-entrant process_event_queue)" % (o[1], o[3]))
                 self.on_invoke(o[1], o[2], o[3], o[4])
             elif o[0] == "C":
+                if o[4]:
+                    raise Reject("dispatch-nested", "completion callback of post #%d ran while another handler, callback "
+                                 "or context was still running (re-entrant process_event_queue)" % o[1])
                 self.on_callback(o[1], o[2], o[3])
             elif o[0] == "Q":
-                self.end_turn()
                 if o[1] or o[2]:
-                    raise Reject("queue-not-drained", "after the turn event_queue has %d and callback_queue %d entries"
-                                 % (o[1], o[2]))
+                    raise Reject("queue-not-drained", "a context starts (or the run ends) while event_queue has %d and "
+                                 "callback_queue %d entries" % (o[1], o[2]))
+        if self.expect:
+            raise Reject("inline-callback-missing", "procedure %d was not run inline" % self.expect[0])
+        self.task_obs_guard()
         self.end_turn()
+        t = self.task
+        if t is not None and not t["finished"] and not t["waiting"]:
+            raise Reject("callback-missed", "the task of queue post #%d neither finished nor waits" % t["post"]["id"])
+        # every scripted context ran (the order among contexts that are due at the same instant is open)
+        xs = [o[1] for o in trace if o[0] == "X" and o[2][0] == "t"]
+        pos = 0
+        for g in turn_groups(self.case):
+            if sorted(xs[pos:pos + len(g)]) != sorted(p for _, p in g):
+                raise Reject("context-not-run", "scripted contexts %s; contexts that ran %s" % (sorted(p for _, p in g), xs[pos:pos + len(g)]))
+            pos += len(g)
+        if pos != len(xs):
+            raise Reject("context-not-run", "unexpected contexts %s" % xs[pos:])
+        if sorted(self.delays) != sorted(out.get("pending", [])):
+            raise Reject("delay-table", "pending delays %s, expected %s" % (sorted(out.get("pending", [])), sorted(self.delays)))
 
 
 def truthy(r):
@@ -664,12 +1182,16 @@ def truthy(r):
         return False
     if r[0] in ("b", "z"):
         return bool(r[1])
+    if r[0] in ("wait",):
+        return False
+    if r[0] == "mp":
+        return True          # {'_min_priority': {...}} is a non-empty dict
     return bool(r[1])
 
 
 def accept(case, out, fastpath):
     try:
-        Acceptor(case, fastpath).walk(out["trace"])
+        Acceptor(case, fastpath).walk(out["trace"], out)
         return None
     except Reject as rj:
         return {"sig": rj.sig, "what": rj.what}
@@ -714,13 +1236,19 @@ def shrink(case):
                 small = None
                 if a[0] == "post" and (a[4] or a[3] is not None):
                     small = ["post", a[1], a[2], None if not a[4] else a[3], []]
-                elif a[0] == "add" and len(a) == 9 and (a[5] or a[6] or a[7] or a[8]):
-                    small = ["add", a[1], a[2], a[3], a[4], 0, 0, [], None]
+                elif a[0] == "add" and (a[5] or a[6] or a[7] or a[8]):
+                    small = ["add", a[1], a[2], a[3], a[4], 0, 0, [], None, a[9] if len(a) > 9 else 0]
                 if small is not None:
                     np = sc[p][:j] + [{"acts": pr["acts"][:k] + [small] + pr["acts"][k + 1:], "ret": pr["ret"]}] + sc[p][j + 1:]
                     yield dict(case, script=dict(sc, **{p: np}))
     for t in range(len(turns)):
-        if turns[t][0] != 0:
+        if turns[t][0] == "g":
+            g = turns[t][1]
+            if len(g) > 2:
+                for m in range(len(g)):
+                    yield dict(case, turns=turns[:t] + [["g", g[:m] + g[m + 1:]]] + turns[t + 1:])
+            yield dict(case, turns=turns[:t] + [[1, m[1]] for m in g] + turns[t + 1:])
+        elif turns[t][0] != 0:
             yield dict(case, turns=turns[:t] + [[0, turns[t][1]]] + turns[t + 1:])
 
 
@@ -751,8 +1279,16 @@ def nontrivial(case, out):
     return depth and multi
 
 
+def nontrivial_q(case, out):
+    inv = [o for o in out.get("trace", []) if o[0] == "I" and o[3] == case.get("qev")]
+    return len(inv) >= 2 and any(o[0] == "C" for o in out.get("trace", []))
+
+
 def describe(case):
-    return "turns=%d ctx=%s" % (len(case["turns"]), CTX_NAMES[case["turns"][0][0]])
+    k = case["turns"][0][0] if case["turns"] else 0
+    return "%s turns=%d ctx=%s%s" % (case.get("flavour", "bus"), len(case["turns"]),
+                                     CTX_NAMES[k] if isinstance(k, int) else "group",
+                                     " same-instant" if any(t[0] == "g" for t in case["turns"]) else "")
 
 
 def widened_search(seed):
@@ -760,15 +1296,18 @@ def widened_search(seed):
     import random
     rng = random.Random((seed * 7919) ^ 0xC01)
     for i in range(6000):
-        c = gen_case(rng, "thorough", i)
+        q = i % 4 == 3
+        c = gen_case(rng, "thorough", i, queue=q)
         o = run_impl(c)
         for f in oracle(c, o):
             if f["sig"] != "fastpath-drop-late-registration":
-                return {"sig": f["sig"], "what": f["what"], "case": c, "suite": "dispatch"}
+                return {"sig": f["sig"], "what": f["what"], "case": c, "suite": "queue" if q else "dispatch"}
     return None
 
 
 SUITES = [
     Suite("dispatch", gen_case, run_impl, HDR, coq_case, oracle, shrink, nontrivial,
-          {"quick": 1500, "thorough": 20000}, worker_init=worker_init, shard=125, describe=describe),
+          {"quick": 900, "thorough": 16000}, worker_init=worker_init, shard=100, describe=describe),
+    Suite("queue", gen_queue, run_impl, HDRQ, coq_case, oracle, shrink, nontrivial_q,
+          {"quick": 300, "thorough": 5000}, worker_init=worker_init, shard=100, describe=describe),
 ]
